@@ -12,6 +12,10 @@ def build(tier):
     for k in ("function", "macro"):
         for np_ in ((0, 1, 3) if quick else (0, 1, 2, 3, 4)):
             obs.append(renders.render_ob("C03.b", k, dict(np=np_), (0,), 2 if quick else 3, timeout=300 if quick else 1200))
+    # parameters as long as the marker text itself (a parameter may be spelled exactly '**kwargs'): the marker is still appended, once, last
+    for k in ("function", "macro"):
+        for np_ in ((2,) if quick else (1, 2, 3)):
+            obs.append(renders.render_ob("C03.b", k, dict(np=np_), (), 8, timeout=300 if quick else 1200))
     obs += steps.step_obligations('C03.a', ['function', 'macro', 'cmake_parse_arguments', 'endmacro'], tier, 1, 1, free=True, symkw=True, symargs=True, tl=1, dl=2,
                                   deepd=8 if quick else 24, preargs=['q%d' % i for i in range(12 if quick else 40)],
                                   arities={'function': [2], 'macro': [2], 'cmake_parse_arguments': [2], 'endmacro': [0]})
